@@ -71,9 +71,9 @@ type c11Plan struct {
 	prelude string
 	xgo     bool
 	build   func(d *drive.Driver, cb *gogen.CodeBuilder)
-	ref     string // body of func f in the reference
+	ref     string   // body of func f in the reference
 	alts    []string // further reference bodies with the same meaning (any one may match)
-	key     string // distinctness key
+	key     string   // distinctness key
 	feats   []string
 	// mayReject: the construct is outside what the documentation defines; the builder may report an
 	// error, but if it accepts, the output must still type-check (no reference comparison).
@@ -88,7 +88,7 @@ type c11Plan struct {
 	builderPrelude string
 }
 
-var c11Feats = []string{"bti", "member", "cast", "alias", "enum", "big", "optional", "inline"}
+var c11Feats = []string{"bti", "member", "cast", "alias", "enum", "big", "optional", "inline", "tuple"}
 
 func c11MakePlan(feat string, ch *chooser) *c11Plan {
 	switch feat {
@@ -108,6 +108,8 @@ func c11MakePlan(feat string, ch *chooser) *c11Plan {
 		return c11PlanOptional(ch)
 	case "inline":
 		return c11PlanInline(ch)
+	case "tuple":
+		return c11PlanTuple(ch)
 	}
 	return nil
 }
@@ -1707,6 +1709,90 @@ func c11EvalBig(c *oracle.Checked, e ast.Expr) (*big.Rat, error) {
 	return nil, fmt.Errorf("unsupported expression %T", e)
 }
 
+
+// ---- tuples: struct types with ordinal fields X_0, X_1, ... and optional field names -------------
+
+// c11PlanTuple: a tuple type is a struct whose fields are X_0, X_1, ...; members are read and
+// assigned by ordinal (a.0) or, for a tuple created with names, by name (a.y); a tuple literal and
+// the cast T(v0, v1) of a named tuple type are struct literals.
+func c11PlanTuple(ch *chooser) *c11Plan {
+	p := &c11Plan{feats: []string{"tuple"}}
+	p.builderPrelude = "package main\n\nvar w int\n"
+	p.prelude = "package main\n\nvar w int\n\ntype Point struct {\n\tX_0 int\n\tX_1 string\n}\n"
+	var tup *types.Struct
+	p.declare = func(d *drive.Driver) {
+		pkg := d.Pkg
+		mk := func() *types.Struct {
+			return pkg.NewTuple(true, types.NewField(token.NoPos, pkg.Types, "x", types.Typ[types.Int], false), types.NewField(token.NoPos, pkg.Types, "y", types.Typ[types.String], false))
+		}
+		tup = mk()
+		pkg.NewType("Point").InitType(pkg, mk())
+	}
+	recv := ch.pick("recv", []string{"unnamed", "named", "pointer"})
+	op := ch.pick("op", []string{"read-name", "read-ordinal", "assign-name", "assign-ordinal", "literal", "cast", "read-both"})
+	fld := ch.n("field", 2)
+	p.feats = append(p.feats, "recv:"+recv, "op:"+op)
+	name := []string{"x", "y"}[fld]
+	ord := []string{"0", "1"}[fld]
+	gofld := []string{"X_0", "X_1"}[fld]
+	val, valRef := any(1), "1"
+	if fld == 1 {
+		val, valRef = "s", `"s"`
+	}
+	decl := map[string]string{"unnamed": "\tvar a struct {\n\t\tX_0 int\n\t\tX_1 string\n\t}\n", "named": "\tvar a Point\n", "pointer": "\tvar a *Point\n"}[recv]
+	declare := func(d *drive.Driver, cb *gogen.CodeBuilder) {
+		switch recv {
+		case "unnamed":
+			cb.NewVar(tup, "a")
+		case "named":
+			cb.NewVar(c11Type(d, "Point"), "a")
+		default:
+			cb.NewVar(types.NewPointer(c11Type(d, "Point")), "a")
+		}
+	}
+	switch op {
+	case "read-name", "read-ordinal", "read-both":
+		p.build = func(d *drive.Driver, cb *gogen.CodeBuilder) {
+			declare(d, cb)
+			m := name
+			if op == "read-ordinal" {
+				m = ord
+			}
+			cb.VarRef(nil).VarVal("a").MemberVal(m, 0).Assign(1)
+			if op == "read-both" {
+				cb.VarRef(nil).VarVal("a").MemberVal(ord, 0).Assign(1)
+			}
+		}
+		p.ref = decl + "\t_ = a." + gofld + "\n"
+		if op == "read-both" {
+			p.ref += "\t_ = a." + gofld + "\n"
+		}
+	case "assign-name", "assign-ordinal":
+		p.build = func(d *drive.Driver, cb *gogen.CodeBuilder) {
+			declare(d, cb)
+			m := name
+			if op == "assign-ordinal" {
+				m = ord
+			}
+			cb.VarVal("a").MemberRef(m).Val(val).Assign(1)
+		}
+		p.ref = decl + "\ta." + gofld + " = " + valRef + "\n"
+	case "literal":
+		p.build = func(d *drive.Driver, cb *gogen.CodeBuilder) {
+			cb.VarRef(nil).Val(1).Val("s").TupleLit(nil, 2).Assign(1)
+		}
+		p.ref = "\t_ = struct {\n\t\tX_0 int\n\t\tX_1 string\n\t}{1, \"s\"}\n"
+	default:
+		p.build = func(d *drive.Driver, cb *gogen.CodeBuilder) {
+			cb.VarRef(nil).Typ(c11Type(d, "Point")).Val(1).Val("s").Call(2).Assign(1)
+		}
+		p.ref = "\t_ = Point{1, \"s\"}\n"
+	}
+	p.key = "tuple:" + recv + ":" + op + ":" + ord
+	p.desc = "tuple " + op + " field " + ord + " on a " + recv + " tuple"
+	return p
+}
+
 // ---- (d) optional parameters, (g) inline closures: see below ----------------------------------------
 
 const c11OptPrelude = `package main
@@ -2023,6 +2109,7 @@ func c11PlanOptionalImported(ch *chooser, p *c11Plan) *c11Plan {
 	p.desc = "call of imported " + callee + " with " + fmt.Sprint(nargs) + " arguments"
 	return p
 }
+
 // ---- (g) inline closure calls ----------------------------------------------------------------------
 
 const c11InlinePrelude = `package main
@@ -2415,7 +2502,7 @@ func TestC11(t *testing.T) {
 		c11ReplayFindings(r)
 	}
 	avoid := hx.KnownAvoid()
-	feats := []string{"bti", "member", "cast", "alias", "enum", "big", "optional", "inline"}
+	feats := []string{"bti", "member", "cast", "alias", "enum", "big", "optional", "inline", "tuple"}
 	if only := os.Getenv("VERIF_C11_FEAT"); only != "" {
 		feats = []string{only}
 	}
